@@ -188,7 +188,7 @@ struct TSearch {
                 if (bez_dist2(c, m1, v) <= bez_dist2(c, m2, v)) b = m2; else a = m1;
             }
             ld tm = (a + b) / 2;
-            if (tm <= tlo) tm = nextafterl(tlo, 2.0L);
+            if (tm < tlo + ldexpl(1.0L, -58)) tm = tlo + ldexpl(1.0L, -58);  // distinct on the 2^-60 grid
             if (!final_vertex && tm > 1.0L - ldexpl(1.0L, -50))  // a vertex before the last one: stay below 1 on the 2^-60 grid
                 tm = tlo > 1.0L - ldexpl(1.0L, -49) ? (tlo + 1.0L) / 2 : 1.0L - ldexpl(1.0L, -50);
             ld fm = bez_dist2(c, tm, v);
@@ -507,13 +507,19 @@ static void run_curve(Out& out, const CurveDesc& d) {
             Vec2 delta = pre - point0;
             A.cx = delta.x; A.cy = delta.y;
             A.nseg = c.point_array.count - n0;
-            // chord count against the formula (long double), full angle before the transform
-            bool bnd;
-            uint64_t np = 1 + expected_arc_points(fabs(a_f - a_i), rx > ry ? rx : ry, tol, bnd);
-            if (np < GDSTK_MIN_POINTS) np = GDSTK_MIN_POINTS;
-            uint64_t got = A.nseg + 1;
-            if (!(got == np || (bnd && (got + 1 == np || got == np + 1))))
-                setfail("FAIL Curve::arc:count " + std::to_string(got) + " points, formula gives " + std::to_string(np));
+            // chord count against the formula (long double).  The theorem needs at least the count for the
+            // PARAMETER span; the C++ uses the geometric span (the same for circles), so for ellipses the
+            // count is not compared here: too few chords show up as deviation (finding F12).
+            if (rx == ry) {
+                bool bnd;
+                uint64_t np = 1 + expected_arc_points(fabs(a_f - a_i), rx, tol, bnd);
+                if (np < GDSTK_MIN_POINTS) np = GDSTK_MIN_POINTS;
+                uint64_t got = A.nseg + 1;
+                if (got < np && !(bnd && got + 1 == np))
+                    setfail("FAIL Curve::arc:count " + std::to_string(got) + " points, the chord formula gives " + std::to_string(np));
+                else if (got != np && !(bnd && (got + 1 == np || got == np + 1)))
+                    out.count("arc:more-chords-than-formula");
+            }
             have_exp_ctl = false;
         } else {
             out.count("unknown-call");
@@ -683,7 +689,15 @@ static void run_curve(Out& out, const CurveDesc& d) {
                 for (ld t : ts) secdata += " " + grid60(t);
                 nsec_done++;
             }
-            if (pos < nv.size() && fail.empty()) setfail("FAIL " + k + ":extra vertices after the last requested end point");
+            if (pos < nv.size() && fail.empty()) {
+                bool rest_finite = true;
+                for (size_t q = pos; q < nv.size(); q++) rest_finite = rest_finite && finite2(nv[q]);
+                if (!rest_finite && !secs.empty() && !secs.back().line && k != "param")
+                    // the parameter reached 1 - ulp instead of 1: one more iteration, whose step is NaN
+                    setfail("FAIL append_cubic:nan-step a NaN vertex is appended after the end point of the section (one more iteration at t = 1 - ulp)");
+                else
+                    setfail("FAIL " + k + ":extra vertices after the last requested end point");
+            }
             // ---- P checks the harness can make alone
             if (!nv.empty() && finite2(post) && !secs.empty() && !eqv(post, secs.back().ctrl.back()))
                 setfail("FAIL " + k + ":end last vertex differs from the requested end point");
@@ -863,7 +877,7 @@ static void run_shape(Out& out, const std::string& kind, const std::string& payl
             bool bnd;
             uint64_t np = 1 + expected_arc_points(full_angle, lrx > lry ? lrx : lry, tol, bnd);
             if (np < GDSTK_MIN_POINTS) np = GDSTK_MIN_POINTS;
-            if (!(got == np || (bnd && (got + 1 == np || got == np + 1))))
+            if ((lrx == lry || full) && got < np && !(bnd && got + 1 == np))
                 fail = "FAIL ellipse:count " + std::to_string(got) + " points, formula gives " + std::to_string(np);
             emit_arcloop(out, "ellipse", head + " # " + which, tol, A, lv, fail, 4.0);
         };
@@ -931,7 +945,7 @@ static void run_shape(Out& out, const std::string& kind, const std::string& payl
         uint64_t np = 1 + expected_arc_points(M_PI, r, tol, bnd);
         if (np < GDSTK_MIN_POINTS) np = GDSTK_MIN_POINTS;
         std::string fail;
-        if (!(h == np || (bnd && (h + 1 == np || h == np + 1))))
+        if (h < np && !(bnd && h + 1 == np))
             fail = "FAIL racetrack:count " + std::to_string(h) + " points per half turn, formula gives " + std::to_string(np);
         if (h >= 2 && 2 * h <= total) {
             ArcInfo A = {};
@@ -1031,6 +1045,7 @@ static void run_shape(Out& out, const std::string& kind, const std::string& payl
     }
 }
 
+static void bezier_single_point(Out& out);
 // ---------------------------------------------------------------- case entry (also used by corpus / replay)
 static void run_case(Out& out, const std::string& kind, const std::string& payload) {
     if (kind == "rectangle" || kind == "cross" || kind == "regular_polygon" || kind == "ellipse" || kind == "racetrack" || kind == "fillet") {
@@ -1042,6 +1057,11 @@ static void run_case(Out& out, const std::string& kind, const std::string& paylo
         out.count("bad-desc");
         return;
     }
+    for (auto& c : d.calls)
+        if (c.kind == "bezier" && c.pts.size() < 2) {
+            bezier_single_point(out);
+            return;
+        }
     run_curve(out, d);
 }
 
@@ -1252,7 +1272,9 @@ static CurveDesc gen_curve(Rng& g, Out& out, bool thorough) {
                     for (size_t j = 0; j < i; j++) if (o[i].x == o[j].x && o[i].y == o[j].y) bad = true;
                 }
                 if (bad) { o.clear(); Vec2 acc = {0, 0}; for (size_t i = 0; i < n; i++) { acc = acc + Vec2{G.coord(1, 500), G.coord(-500, 500)}; o.push_back(acc); } cls = "fan"; }
+                const Vec2 before = cur;
                 place(o);
+                if (c.cycle) cur = before;  // a closed interpolation returns to its first point
                 double tin = g.chance(70) ? 1.0 : 0.75 + (double)g.below(200) / 100, tout = g.chance(70) ? 1.0 : 0.75 + (double)g.below(200) / 100;
                 c.num = {tin, tout, g.chance(70) ? 1.0 : (double)g.below(300) / 100, g.chance(70) ? 1.0 : (double)g.below(300) / 100};
             } break;
@@ -1401,6 +1423,32 @@ static void known_inputs(Out& out) {
     }
 }
 
+// "Single Bezier section defined by any number of control points": one point (a straight line written as a
+// Bezier) makes append_bezier evaluate an empty second-derivative polygon: eval_bezier(t, d2p, 0) loops from
+// count - 1 = 2^64 - 1.  Run in a child; the model answers None (out-of-bounds read) for fewer than 2 points.
+static void bezier_single_point(Out& out) {
+    CurveDesc d;
+    d.tol = 0.01;
+    Call c;
+    c.kind = "bezier";
+    c.pts = {Vec2{1, 1}};
+    d.calls.push_back(c);
+    std::string r = in_child([](FILE* o) {
+        Curve cv = {};
+        cv.init(Vec2{0, 0}, 0.01);
+        Array<Vec2> p = {};
+        p.append(Vec2{1, 1});
+        cv.bezier(p, false);
+        fprintf(o, "returned %llu", (unsigned long long)cv.point_array.count);
+    });
+    std::string data = "poly " + std::to_string(g_budget) + " " + hex_dbl(d.tol) + " " + hd2(Vec2{0, 0}) + " " + hd2(Vec2{0, 0}) +
+                       " bezier 0 0 1 " + hd2(Vec2{1, 1}) + " 0 0";
+    std::string id = out.add("bezier", fmt_desc(d) + " # single | " + data);
+    bool crashed = r.compare(0, 5, "CRASH") == 0 || r == "HANG";
+    out.I(id, crashed ? "crash" : r);
+    out.P(id, crashed ? "FAIL Curve::bezier:single-point-crash bezier() with one control point: " + r : "ok");
+}
+
 int main(int argc, char** argv) {
     if (argc < 4) {
         fprintf(stderr, "usage: c15 seed tier outdir [corpus] [replay]\n");
@@ -1420,6 +1468,7 @@ int main(int argc, char** argv) {
     }
     for (auto& c : load_corpus(argc > 4 ? argv[4] : NULL)) run_case(out, c.first, c.second);
     known_inputs(out);
+    bezier_single_point(out);
     Rng g(seed);
     long NC = thorough ? 6000 : 200, NS = thorough ? 3000 : 120;
     for (long i = 0; i < NC; i++) {
